@@ -2,7 +2,7 @@
    mosaik/proxies.py on every run) and the model Ext/Adapters.v that the C15 theorems are about. *)
 From Coq Require Import List Bool Arith.
 Import ListNotations.
-From MV Require Import Ext.Adapters Ext.GenAdapt Gen.AdaptFns.
+From MV Require Import Ext.Adapters Ext.AdaptersP Ext.GenAdapt Gen.AdaptFns.
 
 (* starting a simulator: LocalProxy.init (or the remote init, which always passes time_resolution and never refuses)
    followed by init_and_get_adapter *)
@@ -50,4 +50,19 @@ Proof.
   match type of H with (if ?c then _ else _) = _ => destruct c; [discriminate|] end.
   injection H as <-.
   destruct (vlt v [2; 2]), (vlt v [3]), g; reflexivity.
+Qed.
+
+Lemma generated_accepted_iff : forall s, version s <> [] -> (forall e, explicit s = Some e -> e <> []) ->
+  (exists a b c, gen_start_of s = Started a b c) <->
+  (major (version s) < 4 /\ (forall e, explicit s = Some e -> e = version s) /\
+   ~ (inproc s = true /\ compliant s = false /\ 3 <= major (version s))).
+Proof. intros s. rewrite tie_start. exact (start_accepts_iff s). Qed.
+
+Lemma generated_requests_through_the_adapters : forall v e st, init_and_get_adapter (Some v) e = GProxy st ->
+  (forall n, send_through v3_send v2_send st (RStep n) = Some (RStep (if vlt v [3] then Nat.min n 2 else n))) /\
+  send_through v3_send v2_send st RSetupDone = (if vlt v [2; 2] then None else Some RSetupDone) /\
+  (forall k, send_through v3_send v2_send st (ROther k) = Some (ROther k)).
+Proof.
+  intros v e st H. repeat split; intros; rewrite (tie_deliver v e st _ H).
+  - apply deliver_step. - apply deliver_setup_done. - apply deliver_other.
 Qed.
